@@ -7,7 +7,9 @@
 (*   the manager by the harness instead of being computed by the real         *)
 (*   algorithm), n, topo (inverter index -> array of component indices        *)
 (*   behind it), bd (PV: lower bounds, model units), req (model units),       *)
-(*   out (scripted outcome per inverter), s / r (forced distribution), and    *)
+(*   out (scripted outcome per inverter), s / r (forced distribution), bad    *)
+(*   (battery index -> "ok" | "nw" | "nan": how the harness made it unusable), *)
+(*   and                                                                       *)
 (*   ev = the events observed on the fake API client / results channel, in    *)
 (*   order, powers as integer mW:                                             *)
 (*     [e |-> "config"]                manager built over this microgrid      *)
@@ -52,7 +54,7 @@ RecCalls == [k \in DOMAIN calls |-> [c |-> calls[k].c, p |-> calls[k].p, o |-> E
 
 TraceCase ==
     [kind |-> Tr.kind, n |-> Tr.n, topo |-> [i \in 1..Tr.n |-> ToSet(Tr.topo[i])],
-     bd |-> [i \in DOMAIN Tr.bd |-> Tr.bd[i] * Unit], req |-> 0, out |-> <<>>, prof |-> Tr.prof]
+     bd |-> [i \in DOMAIN Tr.bd |-> Tr.bd[i] * Unit], req |-> 0, out |-> <<>>, prof |-> Tr.prof, bad |-> Tr.bad]
 
 \* internal actions of the specification that are enabled: they run before the next event is read
 SilentEnabled ==
@@ -79,11 +81,15 @@ ConsumeRequest ==
     /\ Request(E.req, Tr.out) /\ KeepH
     /\ Advance
 
+\* E.s has one entry per inverter; E.missing lists the inverters the distribution does not contain
 ConsumeDist ==
     /\ At("dist")
-    /\ Check(Len(E.s) = cs.n /\ (Tr.forced => (E.r = Tr.r * Unit /\ \A i \in 1..cs.n : E.s[i] = Tr.s[i] * Unit)),
-             "CONF.ForcedDistributionUsed", <<"dist", E.s, E.r>>)
-    /\ GivenDistribution(E.s, E.r) /\ KeepH
+    /\ LET act == (1..cs.n) \ ToSet(E.missing) IN
+         /\ Check(act = ActiveInvs(cs.topo, cs.bad), "CONF.AddressedGroupsMatchTranscription",
+                  <<"distribution over", act, "transcription", ActiveInvs(cs.topo, cs.bad)>>)
+         /\ Check(Len(E.s) = cs.n /\ (Tr.forced => (E.r = Tr.r * Unit /\ \A i \in act : E.s[i] = Tr.s[i] * Unit)),
+                  "CONF.ForcedDistributionUsed", <<"dist", E.s, E.r>>)
+         /\ GivenDistribution([i \in act |-> E.s[i]], E.r) /\ KeepH
     /\ Advance
 
 ConsumeCall ==
